@@ -36,6 +36,8 @@ def run(ctx, col, tier):
                         "order of siblings (bifurcation torque uses the stored child order)",
                         "width / height / depth (axis aligned by definition, not in the property)"]
     col.assumptions += ["numpy operations keep the geometric kind as tabulated in sa/geo.py"]
+    from ..rules import memo
+    memo.run(ctx, col, ('swcgeom.analysis.feature_extractor', 'swcgeom.analysis.features', 'swcgeom.analysis.lmeasure', 'swcgeom.analysis.sholl', 'swcgeom.analysis.volume', 'swcgeom.core.path', 'swcgeom.core.tree', 'swcgeom.core.node', 'swcgeom.core.branch'))
     geo, res = geosinks.check_sinks(ctx, col, "R-GEO")
     geosinks.report(col, "R-GEO", res, repo=ctx.repo)
     col.analysed["geo_summaries"] = len(geo.memo)
